@@ -70,9 +70,11 @@ def model_replay(prop, tier, ev, rep, module, cfg, *, mode="fraction", label=Non
             rep.violation("vector:" + keyfn(t, fails), {"transition": t, "failures": fails, "mode": "fraction, 2-D points",
                                                         "model": module, "cfg": cfg})
         nv = vector_replay(recs, lib, on_fail_vec)
-        from .vector import vector_fit, vector_matmul
+        from .vector import vector_fit, vector_matmul, vector_scalar_ops, vector_fitpoints
         nv += vector_fit(recs, lib, val, on_fail_vec)
         nv += vector_matmul(recs, lib, val, on_fail_vec)
+        nv += vector_scalar_ops(recs, lib, val, on_fail_vec)
+        nv += vector_fitpoints(recs, lib, val, on_fail_vec)
         ev.validated += nv
         ev.extra["paired_calls_with_2D_points"] = ev.extra.get("paired_calls_with_2D_points", 0) + nv
     if val.events:
@@ -465,7 +467,7 @@ def c16(tier):
             ("MC_Curve.tla", "MC_Curve_remove_quick.cfg"), ("MC_Curve.tla", "MC_Curve_decrease_quick.cfg"),
             ("MC_Curve.tla", "MC_Curve_join_quick.cfg")]
     if tier == "quick":
-        scen = scen[:6]
+        scen = scen[:6] + [scen[8]]
     modes = ["float", "numpy.float64", "int", "fraction"] if tier == "thorough" else ["float", "numpy.float64", "int"]
     cache = {}
     for module, cfg in scen:
@@ -544,7 +546,9 @@ def model_replay_cached(prop, tier, ev, rep, module, cfg, mode, cache):
     def on_fail(t, fails):
         rep.violation(f"{mode}:" + fail_key(t, fails), {"transition": t, "failures": fails, "mode": mode,
                                                          "model": module, "cfg": cfg})
-    recs = [t for t in res.records if t["ret"].get("rel") != "sem"]
+    # relationally specified results are judged in Fraction mode by the property's own check; here they are
+    # executed only in the exact modes, to see that exact data still give exact numbers
+    recs = [t for t in res.records if t["ret"].get("rel") != "sem" or r.mode.exact]
     n = replay_all(recs, r, on_fail, sample=lambda t: ev.sample({"mode": mode, **short(t)}), path_records=res.records)
     ev.validated += n
     per = ev.extra.setdefault("replayed_by_mode", {})
